@@ -3,6 +3,8 @@ mod c06;
 mod c07;
 mod c09;
 mod c14;
+mod c15;
+mod c16;
 mod clock;
 mod disk;
 mod engine;
@@ -80,6 +82,25 @@ fn plan(prop: &str, tier: &str, seed: u64) -> Plan {
             rule: "one evaluation = one crash image (lost_suffix fault): initial image + all device writes made durable by a flush barrier + a subset of the un-barriered writes up to the crash point, remounted and the flushed file read back; crash points = every device-write boundary after each flush point (sampled above 48 in the first batch, all in the second); distinct = distinct (crash image, file) pairs".into(),
             exhaustive: false,
             assumptions: vec!["crash model: write-call granularity, cache honours flush (no torn single write)".into(), "a file stops being tracked when it or an ancestor is modified, renamed or removed".into()],
+            extra: serde_json::json!({}),
+        },
+        "C15" => {
+            let (batches, exhaustive) = c15::batches(tier, seed);
+            Plan {
+                batches,
+                level: "exploration",
+                rule: "one evaluation = one candidate name applied through create_file / create_dir / rename into a populated directory on a SimDisk, then listed and looked up by exact name, case variants, alias and near misses, every call checked against the tree model (documented character set, Unicode folding) and the raw image; distinct = distinct candidate strings".into(),
+                exhaustive,
+                assumptions: vec!["exhaustive=true refers to the sub-space 'every BMP code point at first/middle/last position of a 3-character name, every ASCII character alone, every length 0..=300'; that part is input enumeration hosted on the simulator, the rest is seeded".into(), "the accepted set is restated from the documentation: ASCII alnum, $%'-_@~`!(){}.+,;=[]^#& and space, U+0080..U+FFFF, 1..=255 bytes of UTF-8".into()],
+                extra: serde_json::json!({}),
+            }
+        }
+        "C16" => Plan {
+            batches: c16::batches(tier, seed),
+            level: "exploration",
+            rule: "one evaluation = one successful creation / rename / removal in a directory population engineered to collide on the 6-character and on the 2-character+hash alias forms; after every call the raw short names are checked (legal characters, unique, LFN checksum tie) by the independent decoder; distinct = distinct abstract directory states".into(),
+            exhaustive: false,
+            assumptions: vec!["the 16-bit name hash is restated in the harness only to build colliding inputs, not as an oracle".into()],
             extra: serde_json::json!({}),
         },
         "C09" => Plan {
